@@ -31,7 +31,7 @@ A0 == <<[name |-> "N", el |-> "N", serial |-> 10, idx |-> 0], [name |-> "CA", el
         [name |-> "CA", el |-> "C", serial |-> 20, idx |-> 2], [name |-> "O", el |-> "O", serial |-> 31, idx |-> 3],
         [name |-> "OM", el |-> "VS", serial |-> 32, idx |-> 4]>>
 T0 == [chains |-> << [cid |-> "X", res |-> << [name |-> "ALA", resSeq |-> 7, seg |-> "S1", atoms |-> <<1, 2>>], [name |-> "GLY", resSeq |-> 7, seg |-> "S1", atoms |-> <<3>>] >>],
-                     [cid |-> "Y", res |-> << [name |-> "HOH", resSeq |-> 1, seg |-> "S2", atoms |-> <<4, 5>>] >>] >>,
+                     [cid |-> "Y", res |-> << [name |-> "GLY", resSeq |-> 7, seg |-> "S2", atoms |-> <<4, 5>>] >>] >>,
        atoms |-> <<1, 2, 3, 4, 5>>,
        bonds |-> << [u |-> 1, v |-> 2, ty |-> "single", ord |-> 1], [u |-> 2, v |-> 3, ty |-> "amide", ord |-> 0],
                     [u |-> 3, v |-> 4, ty |-> "double", ord |-> 2], [u |-> 4, v |-> 5, ty |-> "none", ord |-> 0] >>]
